@@ -156,6 +156,12 @@ CLAIMED = {
                  "request_new and the built length is recorded. Search-list order and decoding equivalence are declined.",
          "note": STD_NOTE,
          "technique": "static analysis: capacity guards (K4), constant/template check of the header words (K6), error propagation and provenance (K12/K8)"},
+ "C43": {"level": "other",
+         "text": "Over evrpc.c: every release of a request wrapper outside the pool destructor is preceded on every path by the user's completion callback (directly or through a "
+                 "callee inferred to always complete), the callback cannot run twice before the release, and after the callback every path releases the wrapper. Found and repaired "
+                 "a genuine defect: the reply path dropped the RPC silently when the hook meta allocation failed. Reply equality and completion under network faults are declined.",
+         "note": STD_NOTE + " The pool destructor discarding never-started requests is the named exception.",
+         "technique": "static analysis: must-pass-through on CFG paths with inferred always-completing callees (K3), exactly-once typestate (K11)"},
 }
 
 NOT_APPLICABLE = {
